@@ -68,6 +68,11 @@ pub struct Program {
     /// node the others first knew (and connected to) as a secondary
     #[serde(default)]
     pub failover: bool,
+    /// fail-over clusters: a client writes on the youngest node (which never becomes primary) this many
+    /// milliseconds after the first primary was killed -- inside or just after the election window, while
+    /// that node may have no reachable primary (0 = no such write)
+    #[serde(default)]
+    pub window_write_ms: u64,
 }
 
 fn default_strategy() -> String {
@@ -114,7 +119,8 @@ fn gen(rng: &mut Rng) -> Program {
     }
     let strategy = if rng.chance(1, 3) { "newer" } else { "none" }.to_string();
     let failover = nodes == 3 && rng.chance(1, 4);
-    Program { nodes, ops, strategy, failover }
+    let window_write_ms = if failover && rng.chance(1, 2) { 1 + rng.below(election_timeout_ms() + 400) } else { 0 };
+    Program { nodes, ops, strategy, failover, window_write_ms }
 }
 
 struct Outcome {
@@ -219,7 +225,45 @@ fn execute(prog: Program) -> Outcome {
     // not re-form is discarded here)
     let first = if prog.failover && prog.nodes == 3 {
         with(|k| k.fault("primary_killed_before_ops"));
+        if prog.window_write_ms > 0 {
+            with(|k| k.net.line_log = Some(Vec::new()));
+        }
         w.kill(0);
+        if prog.window_write_ms > 0 {
+            // a client operation on the node that stays a secondary, while the election may still run: whatever
+            // that node does with it (drop, forward to the primary it knows), it must not hand it to several nodes
+            with(|k| k.fault("write_in_election_window"));
+            sleep_ms(prog.window_write_ms);
+            let me = w.nodes[2].idx;
+            sessions[2].exec("set ka windowwrite7");
+            let fanned = wait_cond(20_000, 100, || w.agreed_primary() == Ok(1)) && w.settle(3 * election_timeout_ms() + 500, 30_000);
+            let lines: Vec<LineRecord> = with(|k| k.net.line_log.take().unwrap_or_default());
+            let mut dests: Vec<u32> = Vec::new();
+            let mut sample: Vec<String> = Vec::new();
+            for l in lines.iter() {
+                if l.from == Some(me) && l.line.contains("windowwrite7") && !l.line.trim().starts_with("rp ") {
+                    if let Some(t) = l.to {
+                        if !dests.contains(&t) {
+                            dests.push(t);
+                        }
+                        sample.push(format!("n{}->n{}: {}", me + 1, t + 1, l.line.trim().chars().take(80).collect::<String>()));
+                    }
+                }
+            }
+            if dests.len() > 1 {
+                out.setup = Ok(());
+                out.violations.push(Violation::new(
+                    "secondary-fan-out",
+                    "set@secondary-during-election".to_string(),
+                    format!("`set ka windowwrite7` on the youngest node {} ms after the primary was killed: that node sent the operation to {} nodes: {:?}", prog.window_write_ms, dests.len(), sample.iter().take(6).collect::<Vec<_>>()),
+                ));
+                return out;
+            }
+            if !fanned {
+                out.setup = Err("setup_unstable".into());
+                return out;
+            }
+        }
         // the aftermath of an election (leave notices, the winner's announcement, their acks) trickles in
         // for up to an election timeout: the judged operations start from a long silence
         let quiet_ms = 3 * election_timeout_ms() + 500;
@@ -465,7 +509,7 @@ impl Property for C14 {
         (10_000, 300_000)
     }
     fn rule(&self) -> &'static str {
-        "stable clusters of 2-3 real nodes (a quarter of the 3-node clusters after a fail-over: the first primary is killed and the oldest survivor, which the others first knew as a secondary, has taken over); 1-5 client-visible commands of {set,set-safe,remove,increment,get,keys,watch,create-db,create-user,set-permissions,snapshot,cluster-state,metrics-state, conflicting write on an arbiter database + the arbiter's resolve (arbiter on any node)} issued one at a time on a seeded node; every line crossing a simulated inter-node link is recorded and attributed: forwards to the primary <= 1 per client operation, copies of one replicated message <= number of secondaries, acks <= copies, distinct replicated messages <= 1 per client operation (<= 3 on the arbiter conflict/resolve path), nothing from secondary to secondary, quiescence within 8 simulated s and no line during a further 2 x election timeout. Non-trivial: the command produced at least one inter-node line. distinct = distinct (program, task-switch sequence)."
+        "stable clusters of 2-3 real nodes (a quarter of the 3-node clusters after a fail-over: the first primary is killed and the oldest survivor, which the others first knew as a secondary, has taken over; in half of those a client writes on the youngest node 1 ms - (election timeout + 400 ms) after the kill, inside the election window: that node may drop or forward the operation but must not send it to more than one node); 1-5 client-visible commands of {set,set-safe,remove,increment,get,keys,watch,create-db,create-user,set-permissions,snapshot,cluster-state,metrics-state, conflicting write on an arbiter database + the arbiter's resolve (arbiter on any node)} issued one at a time on a seeded node; every line crossing a simulated inter-node link is recorded and attributed: forwards to the primary <= 1 per client operation, copies of one replicated message <= number of secondaries, acks <= copies, distinct replicated messages <= 1 per client operation (<= 3 on the arbiter conflict/resolve path), nothing from secondary to secondary, quiescence within 8 simulated s and no line during a further 2 x election timeout. Non-trivial: the command produced at least one inter-node line. distinct = distinct (program, task-switch sequence)."
     }
     fn assumptions(&self) -> Vec<String> {
         vec!["membership/election traffic is not generated in this check (the cluster is stable); `ok` replies to link commands are not counted as messages".into()]
